@@ -50,7 +50,8 @@ LEVEL = "proof"
 RULE = ("cases from one PRNG: 1-3 homology degrees of 0-10 bars (thorough: 0-40), coordinates from lattice/half/dyadic/"
         "decimal/uniform modes incl. duplicates, diagonal points and infinite deaths; grids: default (from the diagram), "
         "exactly covering, over-covering, on-grid endpoints, partial (not covering), degenerate start=stop and start>stop; "
-        "num_steps 2..40 (thorough ..300) plus 0 and 1; an exact stream on dyadic grids with forced midpoint ties; "
+        "num_steps 2..40 (thorough ..300) plus 0 and 1; 2 of 9 grid landscapes built with compute=False and computed by "
+        "compute_landscape() / compute_landscape(verbose=True); an exact stream on dyadic grids with forced midpoint ties; "
         "vectorize on computed and synthetic critical pairs; transformer with/without flatten, fit_transform and transform; "
         "(both with infinite bars in the diagrams); vectorize of PersLandscapeExact(diagram) against the true landscape "
         "(0-8 bars with duplicates, default/covering/over-covering/partial grids); "
@@ -102,12 +103,25 @@ def canon_values(v):
     return v.astype(float).tolist()
 
 
-def code_approx(dgms, hd, start, stop, n, grid_out=None):
+def route_of(idx):
+    """how the grid landscape of the idx-th case of a stream is obtained (a fixed schedule, no random draw): on construction
+    (7 of 9), or built with compute=False and computed by the public `compute_landscape()` / `compute_landscape(verbose=True)`
+    (progress messages on stdout, discarded) - the same object either way, so the same bound applies"""
+    return {4: "lazy_verbose", 7: "lazy"}.get(idx % 9, "eager")
+
+
+def code_approx(dgms, hd, start, stop, n, grid_out=None, route="eager"):
     PLA = common.pm("landscapes.approximate").PersLandscapeApprox
     kw = {} if n == DEFAULT_STEPS else {"num_steps": n}      # 500 is the default: leave it to the code
+    if route not in (None, "eager"):
+        kw["compute"] = False
     st, v, _ = _quiet(lambda: PLA(dgms=[arr(d) for d in dgms], hom_deg=hd, start=start, stop=stop, **kw))
     if st == "err":
         return "err:" + v
+    if route not in (None, "eager"):
+        st, e, _ = _quiet(lambda: v.compute_landscape(verbose=True) if route == "lazy_verbose" else v.compute_landscape())
+        if st == "err":
+            return "err:" + e
     if grid_out is not None:
         grid_out.extend([v.start, v.stop, v.num_steps])
     return canon_values(v.values)
@@ -455,7 +469,8 @@ def approx_line(c):
 def check_approx_case(ctx, c, model, corr_failures):
     """one PersLandscapeApprox case: the property on the real code, then code against model"""
     used = []
-    code = code_approx(c["dgms"], c["hom_deg"], c["start"], c["stop"], c["n"], used)
+    code = code_approx(c["dgms"], c["hom_deg"], c["start"], c["stop"], c["n"], used, route=c.get("route"))
+    ctx.count("approx-route:" + (c.get("route") or "eager"))
     grid = resolved_grid(c)                        # the model's grid: the one given, else [min birth, max death]
     valid = bool(c["dgms"]) and 0 <= c["hom_deg"] < len(c["dgms"])
     bars = finite_bars(c["dgms"][c["hom_deg"]]) if valid else []
@@ -540,7 +555,8 @@ def stream_approx(ctx, corr_failures):
     for _ in range(ctx.n(300, 3000)):
         cases.append(gen_stress(ctx))
     answers = ask([approx_line(c) for c in cases])
-    for c, ans in zip(cases, answers):
+    for idx, (c, ans) in enumerate(zip(cases, answers)):
+        c["route"] = route_of(idx)
         check_approx_case(ctx, c, ans, corr_failures)
         if len(ctx.violations) > 5:
             return
@@ -1161,9 +1177,13 @@ def replay(ctx, rep):
         c = c["input"]
     op = c.get("op")
     if op == "approx":
+        try:        # the record is strict JSON: an infinite death was written as the string 'inf'
+            c = dict(c, dgms=[[[float(x) for x in b] for b in d] for d in c["dgms"]])
+        except (TypeError, ValueError):
+            pass    # a malformed-input case: replayed as recorded
         used = []
-        code = code_approx(c["dgms"], c["hom_deg"], c["start"], c["stop"], c["n"], used)
-        print("code:", _short(code, 2000), "grid reported by the object:", used)
+        code = code_approx(c["dgms"], c["hom_deg"], c["start"], c["stop"], c["n"], used, route=c.get("route"))
+        print("route:", c.get("route") or "eager", "code:", _short(code, 2000), "grid reported by the object:", used)
         g = resolved_grid(c)
         valid = bool(c["dgms"]) and 0 <= c["hom_deg"] < len(c["dgms"])
         if not valid:
